@@ -4,6 +4,8 @@ import ExponaxModel.Proofs.LinearTestOrderSharp
 import ExponaxModel.Proofs.LinearTestOrderNonlinearVec
 import ExponaxModel.Proofs.LinearTestOrderNonlinear2Vec
 import ExponaxModel.Proofs.LinearTestOrderStored
+import ExponaxModel.Proofs.LinearTestOrderNonlinear3Vec
+import ExponaxModel.Proofs.LinearTestOrderNonlinear4Vec
 /-
 C02 (continued) — ORDER of the schemes ("… and the error decays like dt^p").  Separate file because the order
 library builds on `Properties/C02.lean` (the regenerated steps ARE the Cox–Matthews schemes; no import cycle);
@@ -19,8 +21,12 @@ dt = T/n differ from the exact solution at time T by at most C·dt^p, C independ
     ω ≥ max(0, sup Re λ_k) — i.e. uniformly in the stiffness;
   * on the linear test family the same holds for PERTURBED coefficients up to a consistency floor proportional to the
     perturbation, and hence for the STORED contour coefficients (defaults M = 16, r = 1, real λ ≤ 0, δ = 5e-8).
-MISSING: p = 3, 4 for genuinely nonlinear N (Hochbruck–Ostermann stiff order conditions).  That part stays measured by
-the C02 oracle against an independent reference solution.
+  * p = 3 and p = 4 for genuinely nonlinear N (systems with diagonal L, sup norm) in the CLASSICAL sense: local error ≤ C h^{p+1},
+    global error ≤ C dt^p with explicit constants that may depend on sup|λ_k| (`C02_global_order_etdrk3_nonlinear`,
+    `C02_global_order_etdrk4_nonlinear`), under a Taylor hypothesis on t ↦ N(u(t)) and a linearisation N'(u τ) of N along the
+    solution with quadratic remainder.
+MISSING: stiffness-uniform constants for p = 3, 4 (the stiff order of ETDRK3/4 is lower in general: Hochbruck–Ostermann), and
+the nonlinear results for the stored rather than the exact coefficients.
 -/
 set_option linter.unusedVariables false
 namespace Exponax
@@ -176,5 +182,196 @@ example : (1 : ℂ) ≠ 0 ∧ (0 : ℝ) < 1 := by norm_num
 example : LipschitzWith 1 (fun v : ℂ => Complex.I * v) := by
   refine LipschitzWith.of_dist_le_mul fun x y => ?_
   simp [dist_eq_norm, ← mul_sub]
+
+
+/-! ### ETDRK3 and ETDRK4 with a genuinely NONLINEAR term: classical order 3 resp. 4 (library `Proofs/LinearTestOrderNonlinear{3,4}*.lean`).
+`etd3Vec l N dt` / `etd4Vec l N dt` are the regenerated `E3step` / `E4step` on `ι → ℂ` with the per-mode exact coefficients
+(`C02_etdrk?_vector_step_is_generated`); hypotheses: N Lipschitz, exact solution u, Taylor expansion of f(t) = N(u(t)) to order 2
+resp. 3 with explicit remainder, and real-linear maps L τ (the role of N'(u τ), may couple the modes) with quadratic remainder and
+Lipschitz dependence on τ. -/
+
+open Exponax.LinearOrder in
+theorem C02_etdrk3_nonlinear_local_error :
+    ∀ (l : ℂ) (N : ℂ → ℂ) (K : NNReal),
+      LipschitzWith K N →
+        ∀ (u : ℝ → ℂ) (T ω M1 M2 G3 H HL : ℝ),
+          0 ≤ ω →
+            l.re ≤ ω →
+              0 ≤ G3 →
+                0 ≤ H →
+                  0 ≤ HL →
+                    (∀ t ∈ Set.Icc 0 T, HasDerivAt u (l * u t + N (u t)) t) →
+                      ∀ (f1 f2 : ℝ → ℂ),
+                        (∀ t ∈ Set.Icc 0 T, ‖f1 t‖ ≤ M1) →
+                          (∀ t ∈ Set.Icc 0 T, ‖f2 t‖ ≤ M2) →
+                            (∀ (t s : ℝ),
+                                0 ≤ t →
+                                  0 ≤ s →
+                                    t + s ≤ T →
+                                      ‖N (u (t + s)) - N (u t) - ↑s * f1 t - ↑s ^ 2 / 2 * f2 t‖ ≤ G3 * s ^ 3 / 6) →
+                              ∀ (L : ℝ → ℂ →ₗ[ℝ] ℂ),
+                                (∀ τ ∈ Set.Icc 0 T, ∀ (v : ℂ), ‖(L τ) v‖ ≤ ↑K * ‖v‖) →
+                                  (∀ τ ∈ Set.Icc 0 T,
+                                      ∀ (y : ℂ), ‖N y - N (u τ) - (L τ) (y - u τ)‖ ≤ H / 2 * ‖y - u τ‖ ^ 2) →
+                                    (∀ τ ∈ Set.Icc 0 T,
+                                        ∀ τ' ∈ Set.Icc 0 T, ∀ (v : ℂ), ‖(L τ) v - (L τ') v‖ ≤ HL * |τ - τ'| * ‖v‖) →
+                                      ∀ (t h : ℝ),
+                                        0 ≤ t →
+                                          0 ≤ h →
+                                            t + h ≤ T →
+                                              ‖u (t + h) -
+                                                    Gen.Etdrk.E3step (Complex.exp (l * ↑h)) (Complex.exp (l * ↑h / 2))
+                                                      (↑h * (ContourTail.phi1e (l * ↑h / 2) / 2))
+                                                      (↑h * ContourTail.phi1e (l * ↑h))
+                                                      (↑h *
+                                                        (ContourTail.phi1e (l * ↑h) - 3 * ContourTail.phi2e (l * ↑h) +
+                                                          4 * ContourTail.phi3e (l * ↑h)))
+                                                      (↑h *
+                                                        (4 * ContourTail.phi2e (l * ↑h) - 8 * ContourTail.phi3e (l * ↑h)))
+                                                      (↑h * (4 * ContourTail.phi3e (l * ↑h) - ContourTail.phi2e (l * ↑h))) N
+                                                      (u t)‖ ≤
+                                                ({ K := ↑K, M1 := M1, M2 := M2, G3 := G3, H := H, HL := HL, Lam := ‖l‖, ω := ω, T := T } : NL3).Cloc *
+                                                  h ^ 4 :=
+  @Exponax.LinearOrder.etd3_local_error
+
+open Exponax.LinearOrder in
+theorem C02_global_order_etdrk3_nonlinear :
+    ∀ {ι : Type} [inst : Fintype ι] (l : ι → ℂ) (N : (ι → ℂ) → ι → ℂ) (K : NNReal),
+      LipschitzWith K N →
+        ∀ (u : ℝ → ι → ℂ) (T ω M1 M2 G3 H HL : ℝ),
+          0 ≤ ω →
+            (∀ (k : ι), (l k).re ≤ ω) →
+              0 ≤ G3 →
+                0 ≤ H →
+                  0 ≤ HL →
+                    (∀ t ∈ Set.Icc 0 T, HasDerivAt u (l * u t + N (u t)) t) →
+                      ∀ (f1 f2 : ℝ → ι → ℂ),
+                        (∀ t ∈ Set.Icc 0 T, ‖f1 t‖ ≤ M1) →
+                          (∀ t ∈ Set.Icc 0 T, ‖f2 t‖ ≤ M2) →
+                            (∀ (t s : ℝ),
+                                0 ≤ t →
+                                  0 ≤ s →
+                                    t + s ≤ T →
+                                      ‖N (u (t + s)) - N (u t) - (s : ℂ) • f1 t - ((s : ℂ) ^ 2 / 2) • f2 t‖ ≤ G3 * s ^ 3 / 6) →
+                              ∀ (L : ℝ → (ι → ℂ) →ₗ[ℝ] ι → ℂ),
+                                (∀ τ ∈ Set.Icc 0 T, ∀ (v : ι → ℂ), ‖(L τ) v‖ ≤ ↑K * ‖v‖) →
+                                  (∀ τ ∈ Set.Icc 0 T,
+                                      ∀ (y : ι → ℂ), ‖N y - N (u τ) - (L τ) (y - u τ)‖ ≤ H / 2 * ‖y - u τ‖ ^ 2) →
+                                    (∀ τ ∈ Set.Icc 0 T,
+                                        ∀ τ' ∈ Set.Icc 0 T, ∀ (v : ι → ℂ), ‖(L τ) v - (L τ') v‖ ≤ HL * |τ - τ'| * ‖v‖) →
+                                      ∀ (n : ℕ) (dt : ℝ),
+                                        0 ≤ dt →
+                                          ↑n * dt ≤ T →
+                                            ‖u (↑n * dt) - (etd3Vec l N dt)^[n] (u 0)‖ ≤
+                                              ({ K := ↑K, M1 := M1, M2 := M2, G3 := G3, H := H, HL := HL, Lam := ‖l‖, ω := ω, T := T } : NL3).Cglob *
+                                                dt ^ 3 :=
+  @Exponax.LinearOrder.etd3Vec_global_error
+
+open Exponax.LinearOrder in
+theorem C02_etdrk4_nonlinear_local_error :
+    ∀ (l : ℂ) (N : ℂ → ℂ) (K : NNReal),
+      LipschitzWith K N →
+        ∀ (u : ℝ → ℂ) (T ω M1 M2 M3 G4 H HL : ℝ),
+          0 ≤ ω →
+            l.re ≤ ω →
+              0 ≤ G4 →
+                0 ≤ H →
+                  0 ≤ HL →
+                    (∀ t ∈ Set.Icc 0 T, HasDerivAt u (l * u t + N (u t)) t) →
+                      ∀ (f1 f2 f3 : ℝ → ℂ),
+                        (∀ t ∈ Set.Icc 0 T, ‖f1 t‖ ≤ M1) →
+                          (∀ t ∈ Set.Icc 0 T, ‖f2 t‖ ≤ M2) →
+                            (∀ t ∈ Set.Icc 0 T, ‖f3 t‖ ≤ M3) →
+                              (∀ (t s : ℝ),
+                                  0 ≤ t →
+                                    0 ≤ s →
+                                      t + s ≤ T →
+                                        ‖N (u (t + s)) - N (u t) - ↑s * f1 t - ↑s ^ 2 / 2 * f2 t - ↑s ^ 3 / 6 * f3 t‖ ≤
+                                          G4 * s ^ 4 / 24) →
+                                ∀ (L : ℝ → ℂ →ₗ[ℝ] ℂ),
+                                  (∀ τ ∈ Set.Icc 0 T, ∀ (v : ℂ), ‖(L τ) v‖ ≤ ↑K * ‖v‖) →
+                                    (∀ τ ∈ Set.Icc 0 T,
+                                        ∀ (y : ℂ), ‖N y - N (u τ) - (L τ) (y - u τ)‖ ≤ H / 2 * ‖y - u τ‖ ^ 2) →
+                                      (∀ τ ∈ Set.Icc 0 T,
+                                          ∀ τ' ∈ Set.Icc 0 T, ∀ (v : ℂ), ‖(L τ) v - (L τ') v‖ ≤ HL * |τ - τ'| * ‖v‖) →
+                                        ∀ (t h : ℝ),
+                                          0 ≤ t →
+                                            0 ≤ h →
+                                              t + h ≤ T →
+                                                ‖u (t + h) -
+                                                      Gen.Etdrk.E4step (Complex.exp (l * ↑h)) (Complex.exp (l * ↑h / 2))
+                                                        (↑h * (ContourTail.phi1e (l * ↑h / 2) / 2))
+                                                        (↑h * (ContourTail.phi1e (l * ↑h / 2) / 2))
+                                                        (↑h * (ContourTail.phi1e (l * ↑h / 2) / 2))
+                                                        (↑h *
+                                                          (ContourTail.phi1e (l * ↑h) - 3 * ContourTail.phi2e (l * ↑h) +
+                                                            4 * ContourTail.phi3e (l * ↑h)))
+                                                        (↑h * (ContourTail.phi2e (l * ↑h) - 2 * ContourTail.phi3e (l * ↑h)))
+                                                        (↑h * (4 * ContourTail.phi3e (l * ↑h) - ContourTail.phi2e (l * ↑h)))
+                                                        N (u t)‖ ≤
+                                                  ({ K := ↑K, M1 := M1, M2 := M2, M3 := M3, G4 := G4, H := H, HL := HL, Lam := ‖l‖, ω := ω, T := T } : NL4).Cloc *
+                                                    h ^ 5 :=
+  @Exponax.LinearOrder.etd4_local_error
+
+open Exponax.LinearOrder in
+theorem C02_global_order_etdrk4_nonlinear :
+    ∀ {ι : Type} [inst : Fintype ι] (l : ι → ℂ) (N : (ι → ℂ) → ι → ℂ) (K : NNReal),
+      LipschitzWith K N →
+        ∀ (u : ℝ → ι → ℂ) (T ω M1 M2 M3 G4 H HL : ℝ),
+          0 ≤ ω →
+            (∀ (k : ι), (l k).re ≤ ω) →
+              0 ≤ G4 →
+                0 ≤ H →
+                  0 ≤ HL →
+                    (∀ t ∈ Set.Icc 0 T, HasDerivAt u (l * u t + N (u t)) t) →
+                      ∀ (f1 f2 f3 : ℝ → ι → ℂ),
+                        (∀ t ∈ Set.Icc 0 T, ‖f1 t‖ ≤ M1) →
+                          (∀ t ∈ Set.Icc 0 T, ‖f2 t‖ ≤ M2) →
+                            (∀ t ∈ Set.Icc 0 T, ‖f3 t‖ ≤ M3) →
+                              (∀ (t s : ℝ),
+                                  0 ≤ t →
+                                    0 ≤ s →
+                                      t + s ≤ T →
+                                        ‖N (u (t + s)) - N (u t) - (s : ℂ) • f1 t - ((s : ℂ) ^ 2 / 2) • f2 t - ((s : ℂ) ^ 3 / 6) • f3 t‖ ≤
+                                          G4 * s ^ 4 / 24) →
+                                ∀ (L : ℝ → (ι → ℂ) →ₗ[ℝ] ι → ℂ),
+                                  (∀ τ ∈ Set.Icc 0 T, ∀ (v : ι → ℂ), ‖(L τ) v‖ ≤ ↑K * ‖v‖) →
+                                    (∀ τ ∈ Set.Icc 0 T,
+                                        ∀ (y : ι → ℂ), ‖N y - N (u τ) - (L τ) (y - u τ)‖ ≤ H / 2 * ‖y - u τ‖ ^ 2) →
+                                      (∀ τ ∈ Set.Icc 0 T,
+                                          ∀ τ' ∈ Set.Icc 0 T, ∀ (v : ι → ℂ), ‖(L τ) v - (L τ') v‖ ≤ HL * |τ - τ'| * ‖v‖) →
+                                        ∀ (n : ℕ) (dt : ℝ),
+                                          0 ≤ dt →
+                                            ↑n * dt ≤ T →
+                                              ‖u (↑n * dt) - (etd4Vec l N dt)^[n] (u 0)‖ ≤
+                                                ({ K := ↑K, M1 := M1, M2 := M2, M3 := M3, G4 := G4, H := H, HL := HL, Lam := ‖l‖, ω := ω, T := T } : NL4).Cglob *
+                                                  dt ^ 4 :=
+  @Exponax.LinearOrder.etd4Vec_global_error
+
+open Exponax.LinearOrder in
+theorem C02_etdrk3_vector_step_is_generated :
+    ∀ {ι : Type} (l : ι → ℂ) (N : (ι → ℂ) → ι → ℂ) (dt : ℝ) (x : ι → ℂ) (k : ι),
+      etd3Vec l N dt x k =
+        Complex.exp (l k * ↑dt) * x k +
+              ↑dt *
+                  (ContourTail.phi1e (l k * ↑dt) - 3 * ContourTail.phi2e (l k * ↑dt) + 4 * ContourTail.phi3e (l k * ↑dt)) *
+                N x k +
+            ↑dt * (4 * ContourTail.phi2e (l k * ↑dt) - 8 * ContourTail.phi3e (l k * ↑dt)) * N (etd3VecA l N dt x) k +
+          ↑dt * (4 * ContourTail.phi3e (l k * ↑dt) - ContourTail.phi2e (l k * ↑dt)) * N (etd3VecB l N dt x) k :=
+  @Exponax.LinearOrder.etd3Vec_apply
+
+open Exponax.LinearOrder in
+theorem C02_etdrk4_vector_step_is_generated :
+    ∀ {ι : Type} (l : ι → ℂ) (N : (ι → ℂ) → ι → ℂ) (dt : ℝ) (x : ι → ℂ) (k : ι),
+      etd4Vec l N dt x k =
+        Complex.exp (l k * ↑dt) * x k +
+              ↑dt *
+                  (ContourTail.phi1e (l k * ↑dt) - 3 * ContourTail.phi2e (l k * ↑dt) + 4 * ContourTail.phi3e (l k * ↑dt)) *
+                N x k +
+            ↑dt * (ContourTail.phi2e (l k * ↑dt) - 2 * ContourTail.phi3e (l k * ↑dt)) * 2 *
+              (N (etd4VecA l N dt x) k + N (etd4VecB l N dt x) k) +
+          ↑dt * (4 * ContourTail.phi3e (l k * ↑dt) - ContourTail.phi2e (l k * ↑dt)) * N (etd4VecC l N dt x) k :=
+  @Exponax.LinearOrder.etd4Vec_apply
+
 
 end Exponax
